@@ -1,14 +1,27 @@
 #!/bin/bash
-# usage: tools/trymut.sh <patch.diff> <ID> [<ID>...]   - apply a seeded change to /repo, run the checks, undo it
+# usage: tools/trymut.sh <patch.diff> <ID> [<ID>...]
+# Run checks against a seeded change.  Default: the change is applied to a snapshot of /repo's working tree
+# under /dev/shm (VERIF_REPO points the checks at it; /repo itself is never touched, so this is safe while other
+# checks run).  VERIF_INPLACE=1: apply to /repo itself, run, and undo (git checkout) afterwards.
 set -u
 patch="$(realpath "$1")"; shift
-cd /repo || exit 3
-if ! git diff --quiet; then echo "/repo has uncommitted changes - refusing"; exit 3; fi
-if ! git apply --check "$patch" 2>/dev/null; then echo "patch does not apply: $patch"; exit 3; fi
-git apply "$patch"
-trap 'git -C /repo checkout -- . ; git -C /repo clean -fdq lib; rm -rf "${VERIF_EVIDENCE_DIR:-/nonexistent}"' EXIT
+if [ "${VERIF_INPLACE:-0}" = 1 ]; then
+  cd /repo || exit 3
+  if ! git diff --quiet; then echo "/repo has uncommitted changes - refusing"; exit 3; fi
+  if ! git apply --check "$patch" 2>/dev/null; then echo "patch does not apply: $patch"; exit 3; fi
+  git apply "$patch"
+  trap 'git -C /repo checkout -- . ; git -C /repo clean -fdq lib; rm -rf "${VERIF_EVIDENCE_DIR:-/nonexistent}"' EXIT
+else
+  snap=$(mktemp -d /dev/shm/verif-snap.XXXXXX)
+  trap 'rm -rf "$snap" "${VERIF_EVIDENCE_DIR:-/nonexistent}"' EXIT
+  rsync -a --exclude .git --exclude '__pycache__' /repo/ "$snap"/
+  cd "$snap" || exit 3
+  if ! git apply --check "$patch" 2>/dev/null; then echo "patch does not apply: $patch"; exit 3; fi
+  git apply "$patch"
+  export VERIF_REPO="$snap"
+fi
 cd /verif
-export VERIF_EVIDENCE_DIR=$(mktemp -d /tmp/verif-mut-evidence.XXXXXX)
+export VERIF_EVIDENCE_DIR=$(mktemp -d /dev/shm/verif-mut-evidence.XXXXXX)
 rc_all=0
 for id in "$@"; do
   out=$(./vcheck "$id" --tier "${VERIF_TIER:-quick}" 2>&1); rc=$?
